@@ -13,7 +13,9 @@ import (
 	"fmt"
 	"math/rand"
 	"os"
+	"sync"
 	"sync/atomic"
+	"time"
 )
 
 func init() { register("c14", runC14) }
@@ -439,6 +441,89 @@ func runC14(c *Ctx) {
 		nHang = 400
 	}
 	c14Hangups(c, nHang)
+	c14SlowTransfers(c)
 	c.Diag("c14 openpipe: %d READ/WRITE requests overtook the pipelined OPEN whose handle they guessed (answered STATUS 4; tolerated: no client can know a handle before the OPEN reply)", overtaken)
 	c.Diag("c14 scheduler: %d full gate rounds; %d gates had to be opened before the CLOSE frame could be written (pipeline full); %d runs fell back to the 50 ms idle rule", rounds, stalls, mispred)
+}
+
+// c14SlowTransfers (kind slowxfer): "all relative speeds" includes slow ones. OPEN, three WRITEs and the CLOSE of the handle
+// are written back to back; the backend holds the WRITEs for 6.5 s. However long the transfers take, the handler object is
+// closed only after all of them, and all of them succeed. (Two cases: each takes the 6.5 s.)
+func c14SlowTransfers(c *Ctx) {
+	var wg sync.WaitGroup
+	type outcome struct {
+		ok  bool
+		why string
+	}
+	res := make([]outcome, 2)
+	for i := 0; i < 2; i++ {
+		wg.Add(1)
+		go func(i int) {
+			defer wg.Done()
+			hub := newPgHub()
+			g := newPgGate(false, hub)
+			st := newPgStore(g)
+			pgPopulateStore(st)
+			in, err := pgStart(pgInstOpt{reqServer: true, alloc: i == 1, store: st, hub: hub})
+			if err != nil {
+				res[i] = outcome{false, "harness: " + err.Error()}
+				return
+			}
+			var stream []byte
+			stream = append(stream, rawInit()...)
+			stream = append(stream, rawOpen(1, "w/slow", 0x1a, 0, nil)...)
+			in.cli.SetWriteDeadline(time.Now().Add(5 * time.Second))
+			in.cli.Write(stream)
+			deadline := time.Now().Add(5 * time.Second)
+			for in.col.count() < 2 && time.Now().Before(deadline) {
+				time.Sleep(2 * time.Millisecond)
+			}
+			stream = nil
+			for k := 0; k < 3; k++ {
+				stream = append(stream, rawWrite(uint32(10+k), "1", uint64(k*100), bytes.Repeat([]byte{byte('a' + k)}, 100))...)
+			}
+			stream = append(stream, rawHandleOp(fxpClose, 20, "1")...)
+			in.cli.SetWriteDeadline(time.Now().Add(5 * time.Second))
+			in.cli.Write(stream)
+			time.Sleep(6500 * time.Millisecond) // the WRITEs sit in the backend all this time
+			g.setFree()
+			deadline = time.Now().Add(5 * time.Second)
+			for in.col.count() < 6 && time.Now().Before(deadline) {
+				time.Sleep(2 * time.Millisecond)
+			}
+			resps := in.col.all()
+			down := in.shutdown()
+			st.mu.Lock()
+			objs := append([]*pgObj(nil), st.objs...)
+			st.mu.Unlock()
+			switch {
+			case len(resps) != 6:
+				res[i] = outcome{false, fmt.Sprintf("slow-transfer: %d of 6 responses arrived", len(resps))}
+			case len(objs) != 1:
+				res[i] = outcome{false, fmt.Sprintf("harness-objects: %d backend objects for one handle", len(objs))}
+			case atomic.LoadInt32(&objs[0].closeInflight) != 0:
+				res[i] = outcome{false, fmt.Sprintf("close-overtook-io: %d WriteAt calls were still in progress inside Close() (they had been running for 6.5 s)", objs[0].closeInflight)}
+			case atomic.LoadInt32(&objs[0].late) != 0:
+				res[i] = outcome{false, fmt.Sprintf("io-after-close: %d WriteAt calls started after Close()", objs[0].late)}
+			case atomic.LoadInt32(&objs[0].closes) != 1:
+				res[i] = outcome{false, fmt.Sprintf("close-count: the object was closed %d times", objs[0].closes)}
+			case !down:
+				res[i] = outcome{false, "server-hang: Serve did not return within 5 s of closing the connection"}
+			default:
+				res[i] = outcome{true, ""}
+				for k := 2; k < 6; k++ {
+					if code, isSt := resps[k].statusCode(); !isSt || code != 0 {
+						res[i] = outcome{false, fmt.Sprintf("io-before-close-failed: response %d is %s %d", k, pgTypeName(resps[k].Typ), code)}
+					}
+				}
+			}
+		}(i)
+	}
+	wg.Wait()
+	for i := 0; i < 2; i++ {
+		n := c.Case("slowxfer", kvb("alloc", i == 1), kvi("held_ms", 6500))
+		c.NT(n)
+		c.Stat("cases_rs_slowxfer")
+		c.Oracle(n, res[i].ok, res[i].why)
+	}
 }
